@@ -17,9 +17,12 @@ func init() {
 			"every path does SetFrame(entry, pdt.pdtFrame), flush, inner operation, SetFrame(entry, active frame), flush; on the active scenario the entry is never " +
 			"written; both return the inner operation's error; (R4) on the not-present path AllocFrame's error returns false with no entry write, otherwise " +
 			"*pte = 0, SetFrame(new frame), SetFlags(Present|RW), Memset(next table, 0, PageSize), continue; (R5) Map/Unmap return the walker's error cell unmodified; " +
-			"(R6) MapRegion/IdentityMapRegion map exactly cdiv(size, 4096) pages, page and frame advance together by one, flags pass unchanged, first error returned.",
+			"(R6) MapRegion/IdentityMapRegion map exactly cdiv(size, 4096) pages, page and frame advance together by one, flags pass unchanged, first error returned; " +
+			"(R7) the paging geometry constants satisfy shifts[i] = 12 + bits of all lower levels, one page per table, 48 translated bits, the recursive slot 511/511/511/511 " +
+			"and the temporary page 510/511/511/511, and walk computes entry = tableAddr + ((virt >> shifts[level]) & (2^bits[level] - 1)) * 8, next table = entry << bits[level], " +
+			"starting at pdtVirtualAddr, stopping when the walker returns false.",
 		EnumRule: "obligations per rule and construct",
-		Assumptions: []string{"the recursive-mapping address arithmetic of walk and 'other pages unchanged' are not decided"},
+		Assumptions: []string{"that the structure R7 decides implements the x86-64 recursive-mapping scheme is the standard argument and is not mechanised; 'other pages unchanged' is not decided"},
 		Controls: []Control{
 			{Name: "delete *pte = 0 at the leaf", File: "kernel/mm/vmm/map.go", Old: "\t\t\t*pte = 0\n\t\t\tpte.SetFrame(frame)\n", New: "\t\t\tpte.SetFrame(frame)\n", Expect: "C04.R1"},
 			{Name: "delete the flush in Unmap", File: "kernel/mm/vmm/map.go", Old: "\t\t\tpte.ClearFlags(FlagPresent)\n\t\t\tflushTLBEntryFn(page.Address())\n", New: "\t\t\tpte.ClearFlags(FlagPresent)\n", Expect: "C04.R2"},
@@ -33,6 +36,9 @@ func init() {
 			{Name: "MapRegion frame not advanced", File: "kernel/mm/vmm/map.go", Old: "pageCount, page, frame = pageCount-1, page+1, frame+1 {", New: "pageCount, page = pageCount-1, page+1 {", Expect: "C04.R6"},
 			{Name: "IdentityMapRegion rounds down", File: "kernel/mm/vmm/map.go", Old: "pageCount := mm.Page(((size + (mm.PageSize - 1)) & ^(mm.PageSize - 1)) >> mm.PageShift)", New: "pageCount := mm.Page(size >> mm.PageShift)", Expect: "C04.R6"},
 			{Name: "flush of the wrong page", File: "kernel/mm/vmm/map.go", Old: "\t\t\tpte.SetFlags(flags)\n\t\t\tflushTLBEntryFn(page.Address())", New: "\t\t\tpte.SetFlags(flags)\n\t\t\tflushTLBEntryFn(frame.Address())", Expect: "C04.R2"},
+			{Name: "level shift table off by one level", File: "kernel/mm/vmm/vmm_constants_amd64.go", Old: "\t\t39,\n\t\t30,\n\t\t21,\n\t\t12,\n", New: "\t\t39,\n\t\t30,\n\t\t20,\n\t\t12,\n", Expect: "C04.R7"},
+			{Name: "walk scales the index by 4", File: "kernel/mm/vmm/pdt.go", Old: "entryAddr = tableAddr + (entryIndex << mm.PointerShift)", New: "entryAddr = tableAddr + (entryIndex << 2)", Expect: "C04.R7"},
+			{Name: "temp mapping aliases the recursive slot", File: "kernel/mm/vmm/vmm_constants_amd64.go", Old: "tempMappingAddr = uintptr(0Xffffff7ffffff000)", New: "tempMappingAddr = uintptr(0Xfffffffffffff000)", Expect: "C04.R7"},
 			{Name: "swap without flush", File: "kernel/mm/vmm/pdt.go", Old: "\t\tlastPdtEntry.SetFrame(pdt.pdtFrame)\n\t\tflushTLBEntryFn(lastPdtEntryAddr)\n\t}\n\n\terr := mapFn(page, frame, flags)", New: "\t\tlastPdtEntry.SetFrame(pdt.pdtFrame)\n\t}\n\n\terr := mapFn(page, frame, flags)", Expect: "C04.R"},
 		},
 	})
@@ -88,6 +94,7 @@ func runC04(c *Ctx) {
 	x.r1r2r4r5()
 	x.r3()
 	x.r6()
+	x.r7()
 }
 
 func (x *c04) walker(fn *ssa.Function) *ssa.Function {
